@@ -41,10 +41,12 @@ VARIANTS = [
       "lenght = IntegrateJordan.lenght(self)\n        area = IntegrateJordan.area(self)\n        self.__lenght = lenght if area > 0 else -lenght",
       "self.__lenght = IntegrateJordan.lenght(self)\n        if IntegrateJordan.area(self) <= 0:\n            self.__lenght *= -1",
       ["R11.2"]),
-    M2("scale-unvalidated-both-levels", [("jordancurve.JordanCurve.scale", "float(yscale)", "pass"),
-                                         ("polygon.Point2D.scale", "float(yscale)", "pass")], ["R11.3"], "JordanCurve.scale"),
-    M2("rotate-unvalidated-both-levels", [("jordancurve.JordanCurve.rotate", "float(angle)", "pass"),
-                                          ("polygon.Point2D.rotate", "float(angle)", "pass")], ["R11.3"], "JordanCurve.rotate"),
+    # since F14 (products computed before the first store) a factor that cannot multiply a coordinate is rejected
+    # before any write even without the float() calls: behaviour-preserving for this property
+    T2("scale-unvalidated-both-levels", [("jordancurve.JordanCurve.scale", "float(yscale)", "pass"),
+                                         ("polygon.Point2D.scale", "float(yscale)", "pass")]),
+    T2("rotate-unvalidated-both-levels", [("jordancurve.JordanCurve.rotate", "float(angle)", "pass"),
+                                          ("polygon.Point2D.rotate", "float(angle)", "pass")]),
     M("shape-move-writes-first", "shape.DefinedShape.move", "point = Point2D(*point)\n",
       "point = Point2D(*point)\n    self.jordans[0].vertices[0].move(point)\n", ["R11.3"]),
     T("scale-validated-at-point-level-only", "jordancurve.JordanCurve.scale", "float(yscale)", "pass"),
